@@ -476,11 +476,18 @@ func NewBM(userIDs []*UserID_t) (bms *BM_t) {
 	bmsBytes := bms[:]
 	p_bmsBytes := bmsBytes
 	for idx, each := range userIDs {
+		userIDBytes := types.CstrToBytes(each[:])
+		need := len(userIDBytes)
+		if idx > 0 {
+			need++
+		}
+		if need >= len(p_bmsBytes) { // the remaining ids do not fit (keep the terminating NUL)
+			break
+		}
 		if idx > 0 {
 			p_bmsBytes[0] = '/'
 			p_bmsBytes = p_bmsBytes[1:]
 		}
-		userIDBytes := types.CstrToBytes(each[:])
 		copy(p_bmsBytes[:], userIDBytes)
 		p_bmsBytes = p_bmsBytes[len(userIDBytes):]
 	}
